@@ -42,11 +42,11 @@ let find_handler prop = reg prop "Find" (fun ver args obs ->
       else (match extra with
         | [c] when kind = 1 && rep <> [] && List.mem fn [0; 1; 5; 7; 9] ->
           let calls = int_of_string c in
-          let ints = List.map small_int_of_z res in
+          let ints = List.map clamp_int_of_z res in
           let reported = List.filter (fun x -> x >= 0) ints in
-          let lo' = small_int_of_z lo in
+          let lo' = clamp_int_of_z lo in
           let last_end = (match List.rev reported with [] -> -1 | x :: _ -> x + max (List.length pat) 1 - 1) in
-          let n' = small_int_of_z n in
+          let n' = clamp_int_of_z n in
           if ver = "v3" && fn = 1 && n' <= 0 && calls <> 1 then
             Some (Printf.sprintf "FindFirstN with n <= 0 consulted %d positions (v3 must consult nothing)" calls)
           else if calls > (max lo' last_end) + 2 + 1000 then
